@@ -11,7 +11,7 @@ from .contract import Contract, Loop
 from .source import (MissingFunction, Module, OutOfSubset, dotted_to_relpath, find_function,
                      load_module, loops_in, strip_docstring)
 from .spec import SPECS, Spec
-from .values import (V, VBool, VBound, VClosure, VInt, VMatch, VNone, VObj, VOpaque, VPy, VRec, VRef,
+from .values import (V, VBool, VBound, VClosure, VInt, VMatch, VNone, VObj, VOpaque, VOptInt, VPy, VRec, VRef,
                      VSeq, VStr, VStrJoin, VTuple, is_concrete_bool)
 
 BUILTIN_NAMES = {
@@ -107,6 +107,9 @@ class Evaluator:
             return VOpaque(p.fresh(base, z3.IntSort()))
         if n == "Lit":
             return self.lift(VPy(t.args[0]))
+        if n == "Class":
+            mod = load_module(self.ctx.contract.relpath)
+            return VPy(("class", mod, mod.defs[t.args[0]]), t.args[0])
         if n == "Obj":
             return VObj({f: self.fresh_value(ft, f"{base}.{f}") for f, ft in t.args}, base)
         raise OutOfSubset("type", repr(t))
@@ -136,6 +139,8 @@ class Evaluator:
             return v
         if isinstance(v, VMatch):
             return VMatch(p.fresh(base, z3.BoolSort()))
+        if isinstance(v, VOptInt):
+            return VOptInt(p.fresh(base, ty.optint_sort()))
         if isinstance(v, VOpaque):
             return VOpaque(p.fresh(base, z3.IntSort()), v.sort_name)
         if isinstance(v, VObj):
@@ -166,6 +171,9 @@ class Evaluator:
             return z3.BoolVal(len(v.items) > 0)
         if isinstance(v, VMatch):
             return v.t
+        if isinstance(v, VOptInt):
+            O = ty.optint_sort()
+            return z3.And(O.is_some(v.t), O.val(v.t) != 0)
         if isinstance(v, VRef):
             return self.heap.truth(v)
         if isinstance(v, VRec):
@@ -206,6 +214,16 @@ class Evaluator:
                 return other.t == 0
             if isinstance(other, VMatch):
                 return z3.Not(other.t)
+            if isinstance(other, VOptInt):
+                return ty.optint_sort().is_none(other.t)
+            return z3.BoolVal(False)
+        if isinstance(a, VOptInt) or isinstance(b, VOptInt):
+            O = ty.optint_sort()
+            if isinstance(a, VOptInt) and isinstance(b, VOptInt):
+                return a.t == b.t
+            o, i = (a, b) if isinstance(a, VOptInt) else (b, a)
+            if isinstance(i, VInt):
+                return z3.And(O.is_some(o.t), O.val(o.t) == i.t)
             return z3.BoolVal(False)
         if isinstance(a, VInt) and isinstance(b, VInt):
             return a.t == b.t
@@ -273,6 +291,8 @@ class Evaluator:
             return VStrJoin(z3.If(c, a.joined, b.joined), z3.If(c, a.n, b.n))
         if isinstance(a, VMatch) and isinstance(b, VMatch):
             return VMatch(z3.If(c, a.t, b.t))
+        if isinstance(a, (VOptInt, VInt, VNone)) and isinstance(b, (VOptInt, VInt, VNone)):
+            return VOptInt(z3.If(c, self.E.unwrap(a, "optint"), self.E.unwrap(b, "optint")))
         if isinstance(a, VPy) and isinstance(b, VPy) and a.obj is b.obj:
             return a
         raise OutOfSubset("ite", f"{type(a).__name__} / {type(b).__name__}")
@@ -494,7 +514,13 @@ class Evaluator:
         b = self.lift(self.ev(node.right, env))
         return self.binop(node.op, a, b, node)
 
+    def as_int(self, v):
+        if isinstance(v, VOptInt):
+            return VInt(ty.optint_sort().val(v.t))
+        return v
+
     def binop(self, op, a, b, node=None):
+        a, b = self.as_int(a), self.as_int(b)
         if isinstance(a, VPy) and a.obj == ("emptylist",):
             a = self.empty_like(b)
         if isinstance(b, VPy) and b.obj == ("emptylist",):
@@ -570,6 +596,7 @@ class Evaluator:
             r = self.identical(a, b, node)
             return r if isinstance(op, ast.Is) else z3.Not(r)
         if isinstance(op, (ast.Lt, ast.LtE, ast.Gt, ast.GtE)):
+            a, b = self.as_int(a), self.as_int(b)
             if isinstance(a, VBool):
                 a = VInt(z3.If(a.t, I(1), I(0)))
             if isinstance(b, VBool):
@@ -682,11 +709,13 @@ class Evaluator:
         if isinstance(base, VPy) and isinstance(base.obj, tuple) and base.obj and base.obj[0] == "rsplit1":
             _, s, sep = base.obj
             k = self.const_int(idx, node)
-            r = z3.LastIndexOf(s.t, sep.t)
+            if not (z3.is_string_value(sep.t) and len(sep.t.as_string()) == 1):
+                self.oos(node, "rsplit with a separator that is not one character")
+            res, pre = self.E.after_last(self.path, s.t, sep.t)
             if k == -1:
-                return VStr(z3.If(r < 0, s.t, z3.SubString(s.t, r + z3.Length(sep.t), z3.Length(s.t))))
+                return VStr(res)
             if k == 0:
-                return VStr(z3.If(r < 0, s.t, z3.SubString(s.t, 0, r)))
+                return VStr(z3.If(z3.Contains(s.t, sep.t), pre, s.t))
             self.oos(node, "rsplit index")
         if isinstance(base, VTuple):
             return base.items[self.const_int(idx, node)]
